@@ -17,9 +17,10 @@
    consecutive free positions starting there, capped by the request.  The
    64-bit word structure does not influence either choice (the sentinel
    tail of the Go bitmap is "no position beyond the list"), so it is not
-   represented; that Go's shifts/TrailingZeros64 implement this is
-   checked by the correspondence run, which compares every sector
-   number the real allocator hands out.
+   represented here; the word algorithm (shifts, TrailingZeros64, the
+   full-word loops) is transcribed in ProofsWords.v and proved equal to
+   this flat model, and the correspondence run compares every sector
+   number the real allocator hands out with this model.
 
    Failures are oracles carried by each operation: the index of the
    device write / device read / hole source call (within the operation)
